@@ -163,7 +163,13 @@ impl<'a, Version: VersionTrait, Purpose: PurposeTrait> Paseto<'a, Version, Purpo
                     return Err(PasetoError::FooterInvalid);
                 }
             }
-            _ => {}
+            _ => {
+                //a token without a footer segment can only match an absent or empty expected footer
+                let footer = footer.into().unwrap_or_default();
+                if !footer.as_ref().is_empty() {
+                    return Err(PasetoError::FooterInvalid);
+                }
+            }
         }
 
         //grab the header
